@@ -274,12 +274,15 @@ package evm
 
 // ---- vm_call query (input-facing: C09) ------------------------------------------------------------
 
+// a read-only call runs on a historical view of the height asked for (EVM root and native accounts of that
+// height), never on the wrapper the block executor writes through
 //@ func (ctrler *EVMCtrler) callVM(from, to, data, height, blockTime)
-//@   trusted
 //@   objinv ctrler != nil
+//@   requires ctrler.metadb != nil && ctrler.acctHandler != nil
 //@   modifies everything
-//@   preserves RigoApp.*, Config.*
 //@   ensures (result1 == nil) <==> (result0 != nil)
+//@   assert@call(ImmutableStateAt,0): $arg0 == ctrler && $arg1 == height                                        [C03,C17,C19]
+//@   assert@call(NewEVM,0): $arg2 == state                                                                      [C03,C17,C19]
 
 //@ func (ctrler *EVMCtrler) Query(req)
 //@   nopanic
@@ -333,6 +336,8 @@ package evm
 //@   modifies everything
 //@   assert@call(Get,0): content($arg0) == evmblockkey(height)                                                 [C17,C19]
 //@   assert@call(ImmutableAcctCtrlerAt,0): $arg0 == height                                                     [C17,C19]
+//@   ensures (result1 == nil) <==> (result0 != nil)
+//@   ensures result1 == nil ==> wf_wrapper(result0) && result0.immutable
 //@   assert@store(StateDBWrapper.immutable,0): $value == true                                                   [C17,C19]
 //@   assert@store(StateDBWrapper.acctHandler,0): $value == immuAcctHandler                                      [C17,C19]
 //@   assert@store(StateDBWrapper.StateDB,0): $value == stateDB                                                  [C17,C19]
